@@ -26,7 +26,7 @@ CHECKS = {
                 note=BROKER_NOTE + " The two storage phases of auto_scale_node_number are driven through hook H3 (the public method waits 30 s on TCP between them)."),
     "C12": dict(engine="brokermc", cat="model_checking", ref="3/C12",
                 technique="explicit-state BFS over the real broker across host/proxy layouts; accounting invariant on every state, refusal/two-host/replacement-host oracles on every edge, panics caught",
-                text="Every reachable state (bounded depth) of every layout in the configuration list is checked with the broker's own check_metadata plus an independent membership/free-pool accounting; every allocation edge is checked for atomic refusal, two-host chunks and replacement host choice.",
+                text="Every reachable state (bounded depth) of every layout in the configuration list is checked with the broker's own check_metadata plus an independent membership/free-pool accounting; every allocation edge is checked for atomic refusal, two-host chunks and replacement host choice. Start-state families (one exhaustive step each, 4-6 hash seeds per transition): all link tables of <= 3 chunks over 3 hosts x free-proxy vectors; a chunk put on one host by a real failover next to k-1 two-host chunks with free proxies on both hosts.",
                 note=BROKER_NOTE),
     "C18": dict(engine="quorummc", cat="model_checking", ref="3/C18",
                 technique="explicit-state BFS over the real broker failure-report API with snapshot-injected report ages, compared step by step with a reference model (address -> reporter -> age class)",
